@@ -51,6 +51,10 @@ def run(ctx):
                 cfg["limit"] = 1          # stopped by the limit, labels far from a fixed point
             if i % 6 == 0:
                 cfg["K"] = min(6, cfg["K"] + 2)   # more clusters than regimes: empty final clusters are likely
+            if i % 7 == 3:
+                # data riding on a large common offset (sensor counts, timestamps): the two evaluations of the
+                # log-density (labelling table / final per-point pass) must still agree
+                cfg["shift"] = [float(10 ** ctx.rng.choice([5, 6, 7, 8]))] * cfg["N"]
             cfgs.append(cfg)
         for i in range(9 if ctx.quick() else 90):
             cfg = tu.gen_config(ctx.rng)
@@ -59,29 +63,50 @@ def run(ctx):
             cfg["force_final"] = ["empty", "singleton", "pair"][i % 3]   # final labelling with a tiny cluster
             cfgs.append(cfg)
 
-    # ---------------- (a) per-cluster collection on synthetic inputs
-    lines = []
+    # ---------------- (a) per-cluster collection on synthetic inputs, through REAL containers: one-dimensional windows
+    # x_i, unit MRFs and dyadic means, so that the log-density of window i under its own cluster is known exactly
+    # (-(x_i - mu_k)^2/2 - log(2 pi)/2) whatever way the collection evaluates it
+    import math
+    from fast_ticc.containers import arguments as _args, model_state as _ms
+    lines, syn_meta = [], []
     for c in syn:
-        lines.append(f"clusterlists {c['K']} {show_list(c['labels'])} {show_list(c['ll'], lambda x: frac_str(Fraction(x)))}")
+        K = c["K"]
+        labels = [l if 0 <= l < K else 0 for l in c["labels"]]      # the state's labelling never carries the -1 marker
+        xs = [float(Fraction(x)) / 64.0 for x in c["ll"]]
+        mus = [float(k) * 0.75 - 1.0 for k in range(K)]
+        data = np.array(xs, dtype=float).reshape(-1, 1)
+        ua = _args.UserArguments(sparsity_weight=0.11, iteration_limit=5, label_switching_cost=1.0, min_cluster_size=2,
+                                 min_meaningful_covariance=0, num_clusters=K, num_processors=1, window_size=1,
+                                 biased_covariance=False)
+        st = _ms.ModelState.empty_model(ua, data)
+        st.point_labels = list(labels)
+        for k, cl in enumerate(st.clusters):
+            cl.train_inverse = cl.inverse_covariance = np.array([[1.0]])
+            cl.computed_covariance = cl.empirical_covariance = np.array([[1.0]])
+            cl.stacked_data_mean = np.array([mus[k]])
+            cl.log_determinant = 0.0
+        want = [-(Fraction(x) - Fraction(mus[l])) ** 2 / 2 for x, l in zip(xs, labels)]   # + the constant, added below
+        const = -0.5 * math.log(2 * math.pi)
+        got = main_loop._compute_log_likelihood_by_cluster(data, st)
+        lines.append(f"clusterlists {K} {show_list(labels)} {show_list(want, frac_str)}")
+        syn_meta.append((c, K, labels, got, const))
     outs = ctx.driver.run(lines)
-    for c, out in zip(syn, outs):
-        K, labels = c["K"], c["labels"]
-        ll = [float(Fraction(x)) for x in c["ll"]]
-        data = np.arange(len(labels), dtype=float).reshape(-1, 1)
-        model = types.SimpleNamespace(point_labels=list(labels), clusters=[object()] * K,
-                                      arguments=types.SimpleNamespace(window_size=1, num_clusters=K))
-        with tu.patched(likelihood, "point_log_likelihood", lambda point, cluster, w, n: ll[int(point[0])]):
-            got = main_loop._compute_log_likelihood_by_cluster(data, model)
-        got_s = show_list(got, lambda l: show_list(l, lambda x: frac_str(Fraction(float(x)))), ";")
+    for (c, K, labels, got, const), out in zip(syn_meta, outs):
         repaired, pinned = out.split(" ")
-        n_lab = sum(1 for l in labels if 0 <= l < K)
-        flat = [x for l in got for x in l]
-        if len(flat) != n_lab:
-            ctx.violation("impl-violation", f"per-cluster collection yields {len(flat)} entries for {n_lab} labelled points",
-                          c, {"site": "all-ll-length", "phantom": got_s == pinned})
-        elif got_s != repaired:
-            ctx.violation("correspondence-break", "clusterLists vs _compute_log_likelihood_by_cluster",
-                          dict(c, impl=got_s, model=repaired))
+        model_lists = [[float(Fraction(x)) + const for x in common.parse_list(l, str)] for l in (repaired.split(";") if repaired != "-" else [])]
+        while len(model_lists) < K:
+            model_lists.append([])
+        got_l = [[float(x) for x in l] for l in got]
+        flat = [x for l in got_l for x in l]
+        if len(flat) != len(labels):
+            pin_lists = pinned.split(";")
+            ctx.violation("impl-violation", f"per-cluster collection yields {len(flat)} entries for {len(labels)} labelled points",
+                          c, {"site": "all-ll-length", "phantom": [len(l) for l in got_l] == [len(common.parse_list(l, str)) for l in pin_lists]})
+        elif len(got_l) != K or any(len(a) != len(b) or any(not oracles.rel_close(x, y, 1e-12, 1e-12) for x, y in zip(a, b))
+                                    for a, b in zip(got_l, model_lists)):
+            ctx.violation("impl-violation", "per-cluster log-likelihood lists are not the log-densities of exactly the windows "
+                          "carrying each label, in window order", dict(c, impl=repr(got_l)[:400]),
+                          {"site": "cluster-lists"})
         ctx.count("synthetic")
         if any(labels.count(k) == 0 for k in range(K)):
             ctx.count("synthetic_with_empty_cluster")
